@@ -513,19 +513,27 @@ async fn run_hist_inner(base: &MBase, h: &MHist, out: &mut MOut) {
                         .collect();
                     rewriters.sort();
                     rewriters.dedup();
-                    let (what, other) = if !rewriters.is_empty() {
-                        ("both-committed", rewriters)
+                    // classes: a merge_insert is an Update with mem_wal_to_merge, everything else an
+                    // UpdateMemWalState
+                    let class = |k: &str| if k == "merge_insert_merged" { "MergeInsert" } else { "UpdateMemWalState" };
+                    let mut rc: Vec<String> = rewriters.iter().map(|k| class(k).to_string()).collect();
+                    rc.sort();
+                    rc.dedup();
+                    let key = if !rc.is_empty() {
+                        format!("c39/both-committed/after-{}", rc.join("+"))
                     } else if !reappeared.is_empty() {
-                        ("trimmed-generation-reappears", vec!["trim".to_string()])
+                        "c39/trimmed-generation-reappears/rewrite-after-trim".to_string()
                     } else {
-                        ("committed-over-trim", vec!["trim".to_string()])
+                        "c39/committed-over-trim".to_string()
                     };
+                    let other = if rewriters.is_empty() { vec!["trim".to_string()] } else { rewriters };
                     out.violations.push(Violation::new(
                         "same-memwal-concurrent",
-                        &format!("c39/{what}/{}-after-{}", op.kind(), other.join("+")),
+                        &key,
                         format!(
-                            "{} on a stale handle returned Ok although {why}; list now {:?}",
+                            "{} on a stale handle (after {}) returned Ok although {why}; list now {:?}",
                             op.kind(),
+                            other.join("+"),
                             real
                         ),
                         case,
